@@ -330,3 +330,20 @@ Proof.
   destruct (call_predicts_deliver R p c [] d Hcf) as [A _].
   destruct (run_commit c [] p d) as [c' x]. cbn [snd] in A. cbn. rewrite A. reflexivity.
 Qed.
+
+(* ------------------------------------------------------------------ gas limit of a simulated call *)
+
+Lemma call_gas_le_cap : forall gas_cap args_gas, gas_cap <> 0 -> call_gas gas_cap args_gas <= gas_cap.
+Proof.
+  intros gas_cap args_gas Hz. unfold call_gas. apply N.eqb_neq in Hz. rewrite Hz. cbn [negb andb].
+  match goal with |- (if ?c then _ else _) <= _ => destruct c eqn:E end; [lia|apply N.ltb_ge in E; exact E].
+Qed.
+
+(* the premise "for the same gas limit" of the prediction clause can be met: below the node's cap a call is
+   simulated with exactly the gas limit it asks for *)
+Lemma call_gas_exact : forall gas_cap g, gas_cap = 0 \/ g <= gas_cap -> call_gas gas_cap (Some g) = g.
+Proof.
+  intros gas_cap g H. unfold call_gas. destruct (gas_cap =? 0) eqn:E; cbn [negb andb]; [reflexivity|].
+  apply N.eqb_neq in E. destruct H as [H|H]; [contradiction|].
+  replace (gas_cap <? g) with false by (symmetry; apply N.ltb_ge; exact H). reflexivity.
+Qed.
